@@ -69,6 +69,7 @@ REQUIRED = [
     "texts_with_blank_line", "texts_with_comment_line", "texts_repeated_vertex_line", "texts_decreasing_vertex_lines",
     "dag_gate_cyclic_refused", "dag_gate_acyclic_accepted", "dag_results_checked_edgewise",
     "texts_via_command_line_argument", "explicit_format_beats_extension", "written_text_checked_by_reference", "corpus_texts",
+    "large_graph_roundtrips",
 ]
 CASE_TIMEOUT = {"quick": 240, "thorough": 900}
 EXHAUSTIVE_SUBSPACES = {
@@ -1038,9 +1039,43 @@ def case_texts(ctx, gtype, fmt, rseed, count, channel="stringio"):
 
 
 # ------------------------------------------------------------------ workload
+def case_rt_large(ctx, gtype, fmt, rseed):
+    """Graphs whose files run to tens of kilobytes (dense on ~60 vertices, sparse on several hundred)."""
+    ref.selfcheck()
+    r = ctx.rng("rtlarge", gtype, fmt, rseed)
+    shapes = [(60, 0.6), (450, 0.006), (1100, 0.002)] if fmt != "dot" else [(40, 0.3)]
+    for n, dens in shapes:
+        if gtype == "bipartite":
+            L = n // 2
+            shape = (L, n - L)
+            edges = [(u, v) for u in range(1, L + 1) for v in range(1, n - L + 1) if r.random() < dens]
+        else:
+            shape = (n,)
+            if gtype == "digraph":
+                edges = [(u, v) for u in range(1, n + 1) for v in range(1, n + 1) if u != v and r.random() < dens / 2]
+            else:
+                edges = [(u, v) for u in range(1, n + 1) for v in range(u + 1, n + 1) if r.random() < dens]
+        desc = desc_of(gtype, shape, edges)
+        order = list(edges)
+        r.shuffle(order)
+        G = build(desc, order=order)
+        with Scratch() as scratch:
+            for channel in ("stringio", "path"):
+                stage, st, val, text, fmts = transport(ctx, G, gtype, fmt, channel, scratch, r)
+                ctx.count("large_graph_roundtrips")
+                if text is not None:
+                    ctx.count("large_graph_file_chars", len(text))
+                judge_roundtrip(ctx, desc, gtype, fmt, channel, stage, st, val, text=text, fmts=fmts)
+
+
 def workload(tier, seed):
     quick = tier == "quick"
     TYPES = ("simple", "digraph", "dag", "bipartite")
+    for gtype in TYPES:
+        for fmt in {"simple": ["kthlist", "gml", "dimacs"], "digraph": ["kthlist", "gml", "dimacs"], "dag": ["kthlist", "gml", "dimacs"],
+                    "bipartite": ["kthlist", "gml", "matrix"]}[gtype] + ([] if quick else ["dot"]):
+            for b in range(1 if quick else 3):
+                yield "rt_large", {"gtype": gtype, "fmt": fmt, "rseed": seed * 10 + b}
     FORMATS = {"simple": ["kthlist", "gml", "dot", "dimacs"], "digraph": ["kthlist", "gml", "dot", "dimacs"],
                "dag": ["kthlist", "gml", "dot", "dimacs"], "bipartite": ["kthlist", "gml", "dot", "matrix"]}
     # fixed witnesses of every class of damage first (small replay files), independent of the seed
